@@ -287,7 +287,9 @@ func genDecisions() {
 		}
 		sb.WriteString("\n].\n\n")
 	}
-	writeIfChanged("Decisions.v", sb.String())
+	// the case analysis is compared outside Coq (check, stage T: identical, or re-validated by differential execution
+	// against the baseline, DESIGN 12.9); only the text form is written
+	_ = sb
 	writeIfChanged("decisions.txt", txt.String())
 }
 
